@@ -811,6 +811,58 @@ impl PackageBuilder {
                 .push(Dependency::rpmlib("LargeFiles", "4.12.0-1".to_owned()));
         }
 
+        // the rpmlib() features rpmbuild derives from the content of a package (build/pack.c:
+        // haveCharInDep / haveRichDep, build/parseScript.c: an interpreter with arguments)
+        let version_has = |c: char| {
+            [
+                &self.provides,
+                &self.requires,
+                &self.obsoletes,
+                &self.conflicts,
+                &self.recommends,
+                &self.suggests,
+                &self.enhances,
+                &self.supplements,
+            ]
+            .iter()
+            .any(|deps| deps.iter().any(|d| d.version.contains(c)))
+        };
+        let uses_rich_deps = [
+            &self.requires,
+            &self.recommends,
+            &self.suggests,
+            &self.supplements,
+            &self.enhances,
+            &self.conflicts,
+        ]
+        .iter()
+        .any(|deps| deps.iter().any(|d| d.name.starts_with('(')));
+        let uses_interpreter_args = [
+            &self.pre_inst_script,
+            &self.post_inst_script,
+            &self.pre_uninst_script,
+            &self.post_uninst_script,
+            &self.pre_trans_script,
+            &self.post_trans_script,
+            &self.pre_untrans_script,
+            &self.post_untrans_script,
+            &self.verify_script,
+        ]
+        .iter()
+        .any(|s| matches!(s, Some(Scriptlet { program: Some(p), .. }) if p.len() > 1));
+        let content_features = [
+            (version_has('~'), "TildeInVersions", "4.10.0-1"),
+            (version_has('^'), "CaretInVersions", "4.15.0-1"),
+            (uses_rich_deps, "RichDependencies", "4.12.0-1"),
+            (uses_interpreter_args, "ScriptletInterpreterArgs", "4.0.3-1"),
+        ];
+        for (used, feature, version) in content_features {
+            let name = format!("rpmlib({})", feature);
+            if used && !self.requires.iter().any(|d| d.name == name) {
+                self.requires.push(Dependency::rpmlib(feature, version));
+            }
+        }
+
         // TODO: as per https://rpm-software-management.github.io/rpm/manual/users_and_groups.html,
         // at some point in the future this might make sense as hard requirements, but since it's a new feature,
         // they have to be weak requirements to avoid breaking things.
